@@ -31,7 +31,8 @@ JudgeLookup(e) ==
          ELSE IF e.backname # e.name THEN "C14:id-to-name-does-not-return-the-name"
          ELSE "ok")
     ELSE \* key2name
-        (IF CfgSize(e.key) < 0 THEN (IF e.out = "ubxmsg" THEN "ok" ELSE "C14:invalid-key-not-refused")
+        (IF CfgSize(e.key) < 0 THEN "triv"   \* an ID whose size code is not 1..5 is no key at all: the property says nothing about it (the library
+                                     \* refuses 0x8......., raises ValueError for 0xa......., and reads 0x0005002b as an 8-byte key)
          ELSE IF e.out # "ok" THEN "C14:valid-key-refused"
          ELSE IF e.name # CfgName(e.key) THEN "C14:id-to-name"
          ELSE IF TypeSize(e.t) # CfgSize(e.key) THEN "C14:id-to-type-width"
